@@ -1515,15 +1515,18 @@ func (h *fsmHandler) opensent(ctx context.Context) (bgp.FSMState, *fsmStateReaso
 	wg.Add(1)
 	reasonCh := make(chan fsmStateReason, 1)
 	recvChan := make(chan *fsmMsg, 1)
-	go h.recvMessage(ctx, fsm.conn, recvChan, reasonCh, wg)
+	// the connection the reader works on: collision resolution below may switch
+	// fsm.conn to the outgoing connection while the reader still sits on this one
+	recvConn := fsm.conn
+	go h.recvMessage(ctx, recvConn, recvChan, reasonCh, wg)
 
 	defer func() {
 		// for to stop the recv goroutine
-		fsm.conn.SetReadDeadline(time.Now())
+		recvConn.SetReadDeadline(time.Now())
 		wg.Wait()
 		close(recvChan)
 		// reset the read deadline
-		fsm.conn.SetReadDeadline(time.Time{})
+		recvConn.SetReadDeadline(time.Time{})
 	}()
 
 	// RFC 4271 P.60
@@ -1532,8 +1535,22 @@ func (h *fsmHandler) opensent(ctx context.Context) (bgp.FSMState, *fsmStateReaso
 	// for the HoldTimer
 	holdTimer := time.NewTimer(time.Second * time.Duration(fsm.opensentHoldTime))
 
+	// RFC 4271 6.8: an outgoing connection that completed its OPEN exchange while the
+	// dominant peer's OPEN on the accepted connection is still to come waits here;
+	// that OPEN will win the collision.
+	var parked *outgoingConn
+	defer func() {
+		if parked != nil {
+			parked.conn.Close()
+		}
+	}()
+
 	for {
 		verifYield("opensent", fsm)
+		outgoingConnCh := fsm.outgoingConnCh
+		if parked != nil {
+			outgoingConnCh = nil
+		}
 		select {
 		case <-ctx.Done():
 			select {
@@ -1573,7 +1590,11 @@ func (h *fsmHandler) opensent(ctx context.Context) (bgp.FSMState, *fsmStateReaso
 			fsm.recvOpen = m
 			fsm.lock.Unlock()
 
-			if outConn, ok := fsm.tryReceiveOutgoingConn(); ok {
+			outConn, ok := fsm.tryReceiveOutgoingConn()
+			if parked != nil {
+				outConn, ok, parked = *parked, true, nil
+			}
+			if ok {
 				// collision detected
 				isDominant := fsm.isDominant(m.Body.(*bgp.BGPOpen))
 				if isDominant {
@@ -1604,18 +1625,28 @@ func (h *fsmHandler) opensent(ctx context.Context) (bgp.FSMState, *fsmStateReaso
 
 			fsm.bgpMessageStateUpdate(bgp.BGP_MSG_KEEPALIVE, false)
 			return bgp.BGP_FSM_OPENCONFIRM, newfsmStateReason(fsmOpenMsgReceived, nil, nil)
-		case result := <-fsm.outgoingConnCh:
+		case result := <-outgoingConnCh:
 			incomingConn := fsm.conn
-			fsm.conn = result.conn
-			fsm.lock.Lock()
-			fsm.recvOpen = result.open
-			fsm.lock.Unlock()
-
 			var e *fsmMsg
 			select {
 			case e = <-recvChan:
 			default:
 			}
+			if e == nil {
+				// no OPEN on the incoming connection yet
+				if !fsm.isDominant(result.open.Body.(*bgp.BGPOpen)) {
+					parked = &result
+					continue
+				}
+				// the session goes on on the outgoing connection, nobody
+				// will ever read or close the incoming one
+				incomingConn.Close()
+			}
+			fsm.conn = result.conn
+			fsm.lock.Lock()
+			fsm.recvOpen = result.open
+			fsm.lock.Unlock()
+
 			if e != nil {
 				nextState, _, _ := fsm.handleOpen(e)
 				if nextState == bgp.BGP_FSM_OPENCONFIRM {
